@@ -193,3 +193,217 @@ Proof.
   - unfold sc_of. exact SCL.
   - intro d. unfold Phi, spread_bal, sc_of. rewrite (OW d), BS, SCL. reflexivity.
 Qed.
+
+(* ---------- WithdrawPosition ---------- *)
+Lemma send_inc_to_user_bspread : forall b u a0 a1 b', send_inc_to_user b u a0 a1 = Some b' -> b_spread b' = b_spread b.
+Proof.
+  unfold send_inc_to_user. intros b u a0 a1 b' H. destruct ((a0 <? 0) || (a1 <? 0)); [discriminate H|].
+  destruct (user_bal b u) as [[u0 u1]|]; [|discriminate H]. simpl in H. destruct (b_inc b) as [p0 p1].
+  destruct ((p0 <? a0) || (p1 <? a1)); [discriminate H|]. inversion H; subst. reflexivity.
+Qed.
+Lemma collect_incentives_bspread : forall b w cur pl now q b' w' col forf byup,
+  collect_incentives b w cur pl now q = Some (b', w', col, forf, byup) -> b_spread b' = b_spread b.
+Proof.
+  unfold collect_incentives. intros b w cur pl now q b' w' col forf byup H.
+  destruct (prepare_claim_all_incentives _ _ _ _ _ _ _ _) as [[[[w1 c1] f1] by1]|]; [|discriminate H]. simpl in H.
+  destruct ((fst c1 =? 0) && (snd c1 =? 0)).
+  - inversion H; subst. reflexivity.
+  - destruct (send_inc_to_user b (ps_owner q) (fst c1) (snd c1)) as [b1|] eqn:E; [|discriminate H]. inversion H; subst.
+    eapply send_inc_to_user_bspread; exact E.
+Qed.
+Lemma collect_spread_rewards_bank : forall b w sc cur q b' w' c, collect_spread_rewards b w sc cur q = Some (b', w', c) ->
+  prepare_claimable_spread w sc cur (ps_lower q) (ps_upper q) (ps_id q) = Some (w', c) /\
+  b_spread b' = (fst (b_spread b) - fst c, snd (b_spread b) - snd c).
+Proof.
+  unfold collect_spread_rewards. intros b w sc cur q b' w' c H.
+  destruct (prepare_claimable_spread w sc cur (ps_lower q) (ps_upper q) (ps_id q)) as [[w1 c1]|]; [|discriminate H]. simpl in H.
+  destruct ((fst c1 =? 0) && (snd c1 =? 0)) eqn:EZ.
+  - inversion H; subst. split; [reflexivity|]. apply andb_true_iff in EZ. destruct EZ as [A B0]. apply Z.eqb_eq in A, B0.
+    rewrite A, B0, !Z.sub_0_r. destruct (b_spread b'); reflexivity.
+  - destruct (send_spread_to_user b (ps_owner q) (fst c1) (snd c1)) as [b1|] eqn:E; [|discriminate H]. inversion H; subst.
+    split; [reflexivity|]. unfold send_spread_to_user in E. destruct ((fst c <? 0) || (snd c <? 0)); [discriminate E|].
+    destruct (user_bal b (ps_owner q)) as [[u0 u1]|]; [|discriminate E]. simpl in E. destruct (b_spread b) as [p0 p1].
+    destruct ((p0 <? fst c) || (p1 <? snd c)); [discriminate E|]. inversion E; subst. reflexivity.
+Qed.
+
+Lemma PT_subset : forall w P O, PT w P -> (forall p, In p O -> In p P) -> PT w O.
+Proof. intros w P O H S p Hp. apply H. apply S. exact Hp. Qed.
+Lemma stage_same : forall cur w w' P, rw_tt w' = rw_tt w -> rw_spread w' = rw_spread w -> PT w P ->
+  (forall d, zsum (owed d w' cur) P = zsum (owed d w cur) P) /\ PT w' P /\ (forall p, shares_of w' p = shares_of w p) /\
+  (forall l u, l < u -> tks w l u -> tks w' l u /\ forall d, ins d w' cur l u = ins d w cur l u).
+Proof.
+  intros cur w w' P TT SP HPT.
+  assert (SEd : forall d, SE (CS d) cur [] w w') by (intro d; apply SE_same_tt; exact TT).
+  destruct (stage_neutral cur [] w w' P SEd SP HPT (fun p Hp => conj (fun X => X) (fun X => X))) as [A [B0 C]].
+  split; [exact A|]. split; [exact B0|]. split; [exact C|].
+  intros l u Hlu TK. apply (ins_neutral cur [] w w' l u SEd SP Hlu TK); simpl; tauto.
+Qed.
+Lemma owedr_ins : forall d w w' cur l u r, ins d w' cur l u = ins d w cur l u -> owedr d w' cur l u r = owedr d w cur l u r.
+Proof. intros. unfold owedr. rewrite H. reflexivity. Qed.
+
+Lemma zsum_liq_remove : forall l id q, pos_get l id = Some q -> zsum ps_liq (pos_remove l id) = zsum ps_liq l - ps_liq q.
+Proof. intros. apply zsum_remove. assumption. Qed.
+
+Lemma paid_withdraw : forall rs owner id liq rs' amts, PI rs -> 0 < sc_of rs ->
+  r_withdraw rs owner id liq = Some (rs', amts) ->
+  PI rs' /\ sc_of rs' = sc_of rs /\ forall d, Phi d rs' <= Phi d rs + 2 * P18.
+Proof.
+  intros rs owner id liq rs' amts [RI [RM [TOT FR]]] HSC H.
+  pose proof (rinv_withdraw _ _ _ _ _ _ H RI) as RI'. pose proof RI as [I _]. pose proof RI' as [I' _].
+  pose proof (r_withdraw_other _ _ _ _ _ _ H) as SOW.
+  unfold r_withdraw in H.
+  destruct (withdraw_position (r_base rs) owner id liq) as [[s amts']|] eqn:EB; [|discriminate H]. simpl in H.
+  destruct (pos_get (s_pos (r_base rs)) id) as [q|] eqn:Q; [|discriminate H]. simpl in H.
+  assert (QI : ps_id q = id) by (eapply pos_get_id; exact Q).
+  assert (QIn : In q (s_pos (r_base rs))) by (eapply pos_get_in; exact Q).
+  set (cur := p_tick (s_pool (r_base rs))) in *. set (pl := p_liq (s_pool (r_base rs))) in *. set (now := s_time (r_base rs)) in *.
+  set (lo := ps_lower q) in *. set (hi := ps_upper q) in *. set (P := s_pos (r_base rs)) in *.
+  destruct (collect_incentives (s_bank s) (r_rw rs) cur pl now q) as [[[[[b1 w1] col] forf] byup]|] eqn:E1; [|discriminate H]. simpl in H.
+  destruct (update_position_rewards w1 cur pl now lo hi id (ps_liq q - liq) (- liq)) as [w2|] eqn:E2; [|discriminate H]. simpl in H.
+  match type of H with (do bw <- ?X; _) = _ => destruct X as [[b2 w3]|] eqn:E3; [|discriminate H] end. simpl in H.
+  match type of H with (do bw2 <- ?X; _) = _ => destruct X as [[b3 w4]|] eqn:E4; [|discriminate H] end. simpl in H.
+  inversion H; subst rs' amts. clear H. simpl in RI', I', SOW.
+  destruct amts' as [x0 x1].
+  destruct (withdraw_position_spec _ _ _ _ _ _ _ I EB) as [_ [NX [_ [_ [q' [Q' [_ [LQ SP]]]]]]]].
+  fold P in Q', SP. rewrite Q in Q'. inversion Q'; subst q'. clear Q'.
+  destruct (withdraw_position_misc _ _ _ _ _ _ EB) as [BS SCL].
+  (* the others *)
+  set (O := pos_remove P id).
+  assert (OS : ids_sorted P) by apply (inv_pos_sorted _ I).
+  assert (OIn : forall p, In p O -> In p P /\ ps_id p <> id) by (intros p Hp; apply (in_pos_remove P id p OS Hp)).
+  pose proof (PI_PT rs RI) as HPT. fold P in HPT.
+  assert (PTO : PT (r_rw rs) O) by (apply (PT_subset _ P); [exact HPT|intros p Hp; apply OIn; exact Hp]).
+  destruct (HPT q QIn) as [Hlu TK]. fold lo hi in Hlu, TK.
+  destruct (RM q QIn) as [r [R SH]]. rewrite QI in R.
+  (* A: collectIncentives *)
+  pose proof (collect_incentives_tt _ _ _ _ _ _ _ _ _ _ _ E1) as TT1. pose proof (collect_incentives_spread _ _ _ _ _ _ _ _ _ _ _ E1) as SP1.
+  destruct (stage_same cur _ _ O TT1 SP1 PTO) as [ZA [PTA [SHA INSA]]].
+  destruct (INSA lo hi Hlu TK) as [TKA IA].
+  (* B: UpdatePosition with the negative delta *)
+  unfold update_position_rewards in E2.
+  destruct (ensure_tick w1 cur pl now lo) as [w1a|] eqn:E2a; [|discriminate E2]. simpl in E2.
+  destruct (ensure_tick w1a cur pl now hi) as [w1b|] eqn:E2b; [|discriminate E2]. simpl in E2.
+  destruct (init_or_update_uptime w1b cur pl now lo hi id (ps_liq q - liq) (- liq)) as [w1c|] eqn:E2c; [|discriminate E2]. simpl in E2.
+  destruct (upr_neutral _ _ _ _ _ _ _ _ _ _ _ _ O E2a E2b E2c PTA) as [ZB [PTB [SHB [SPB INSB]]]].
+  destruct (INSB lo hi Hlu TKA) as [TKB IB].
+  assert (RB : acc_get (rw_spread w1c) id = Some r) by (rewrite SPB, SP1; exact R).
+  assert (SH0 : 0 <= ar_shares r).
+  { rewrite SH. pose proof (inv_pos_ok _ I) as F. rewrite Forall_forall in F. destruct (F q QIn) as [_ [X _]]. lia. }
+  destruct (stage_update _ cur _ _ _ _ _ _ O E2 RB SH0 Hlu TKB (fun p Hp => proj2 (OIn p Hp)) PTB)
+    as [r2 [R2 [SH2 [ZU [PTU [TKU [SHU [TOTU SOU]]]]]]]].
+  (* C: forfeited incentives *)
+  assert (C3 : rw_tt w3 = rw_tt w2 /\ rw_spread w3 = rw_spread w2 /\ b_spread b2 = b_spread b1).
+  { destruct (p_liq (s_pool s) <? P18).
+    - destruct (send_inc_to_user b1 owner (fst forf) (snd forf)) as [bb|] eqn:E; [|discriminate E3]. inversion E3; subst.
+      split; [reflexivity|]. split; [reflexivity|]. eapply send_inc_to_user_bspread; exact E.
+    - destruct (redeposit_forfeited w2 byup (p_liq (s_pool s))) as [ww|] eqn:E; [|discriminate E3]. inversion E3; subst.
+      split; [eapply redeposit_forfeited_tt; exact E|]. split; [eapply redeposit_forfeited_spread; exact E|reflexivity]. }
+  destruct C3 as [TT3 [SP3 BS3]].
+  destruct (stage_same cur _ _ O TT3 SP3 PTU) as [ZC [PTC [SHC INSC]]].
+  destruct (INSC lo hi Hlu TKU) as [TKC IC].
+  assert (R3 : acc_get (rw_spread w3) id = Some r2) by (rewrite SP3; exact R2).
+  (* totals *)
+  assert (TOT3 : ac_total (rw_spread w3) = zsum ps_liq O + ar_shares r2).
+  { rewrite SP3, TOTU, SPB, SP1, TOT. fold P. unfold O. rewrite (zsum_liq_remove _ _ _ Q), SH2, SH. lia. }
+  assert (SHO3 : forall p, In p O -> shares_of w3 p = ps_liq p).
+  { intros p Hp. rewrite SHC, (SHU p Hp), SHB, SHA. apply recs_match_shares; [exact RM|apply OIn; exact Hp]. }
+  assert (LP : forall p, In p P -> 0 < ps_liq p).
+  { intros p Hp. pose proof (inv_pos_ok _ I) as F. rewrite Forall_forall in F. destruct (F p Hp) as [_ [X _]]. exact X. }
+  (* the bank so far *)
+  assert (BS1 : b_spread b1 = b_spread (s_bank (r_base rs))) by (rewrite (collect_incentives_bspread _ _ _ _ _ _ _ _ _ _ _ E1); exact BS).
+  (* old sums split *)
+  assert (OLD : forall d, Owed d rs = zsum (owed d (r_rw rs) cur) O + owedr d (r_rw rs) cur lo hi r).
+  { intro d. unfold Owed. fold P. change (cur_tick rs) with cur. unfold O. rewrite (zsum_remove _ _ _ _ Q).
+    unfold owed at 3. rewrite QI, R. fold lo hi. lia. }
+  (* the record's value just before the spread stage equals its value at the start *)
+  assert (OR : forall d, owedr d w1c cur lo hi r = owedr d (r_rw rs) cur lo hi r).
+  { intro d. apply owedr_ins. rewrite IB, IA. reflexivity. }
+  (* E: RemoveTickInfo of the ticks that became empty: the stored ticks of the new state are kept *)
+  set (t2 := match tick_get (s_ticks s) hi with
+             | None => tt_remove (match tick_get (s_ticks s) lo with None => tt_remove (rw_tt w4) lo | Some _ => rw_tt w4 end) hi
+             | Some _ => match tick_get (s_ticks s) lo with None => tt_remove (rw_tt w4) lo | Some _ => rw_tt w4 end end) in *.
+  set (w5 := set_tt w4 t2) in *.
+  assert (SE5 : forall d, SE (CS d) cur (removed s lo ++ removed s hi) w4 w5).
+  { intro d. unfold w5, t2, removed. destruct (tick_get (s_ticks s) lo); destruct (tick_get (s_ticks s) hi); simpl.
+    - replace (set_tt w4 (rw_tt w4)) with w4 by (destruct w4; reflexivity). apply SE_refl.
+    - apply SE_remove.
+    - apply SE_remove.
+    - pose proof (SE_trans (CS d) cur _ _ _ _ _ (SE_remove (CS d) cur w4 lo) (SE_remove (CS d) cur (set_tt w4 (tt_remove (rw_tt w4) lo)) hi)) as X.
+      simpl in X. exact X. }
+  assert (SP5 : rw_spread w5 = rw_spread w4) by reflexivity.
+  assert (KEEP : forall p, In p (s_pos s) -> ~ In (ps_lower p) (removed s lo ++ removed s hi) /\ ~ In (ps_upper p) (removed s lo ++ removed s hi)).
+  { intros p Hp. assert (HR : has_range s (ps_lower p) (ps_upper p)) by (exists p; auto).
+    assert (Is : Inv s) by (eapply inv_same_but_bank; [|exact I']; repeat split).
+    destruct (has_range_stored _ _ _ Is HR) as [A [B0 _]].
+    split; intro X; apply in_app_or in X; destruct X as [X|X]; (eapply removed_stored; [|exact X]; assumption). }
+  assert (Ss : ids_sorted (s_pos s)) by apply (inv_pos_sorted _ I').
+  assert (CT : s_pos s <> [] -> p_tick (s_pool s) = cur) by (intro NE; apply (withdraw_position_tick _ _ _ _ _ _ EB NE)).
+  assert (NXI : id < s_next_id (r_base rs)).
+  { pose proof (inv_pos_ok _ I) as F. rewrite Forall_forall in F. destruct (F q QIn) as [[_ X] _]. lia. }
+  assert (FR' : forall j, s_next_id s <= j -> acc_get (rw_spread w5) j = None).
+  { intros j Hj. rewrite NX in Hj. assert (j <> id) by lia. change (rw_spread w5) with (rw_spread w4).
+    rewrite (SOW j H). apply FR. exact Hj. }
+  destruct (liq =? ps_liq q) eqn:EF.
+  - (* full withdrawal: the spread rewards are collected and the record goes away *)
+    apply Z.eqb_eq in EF.
+    destruct (collect_spread_rewards b2 w3 (p_scaling (s_pool (r_base rs))) cur q) as [[[b4 w4'] c]|] eqn:E5; [|discriminate E4].
+    inversion E4; subst b4 w4'. clear E4. destruct (collect_spread_rewards_bank _ _ _ _ _ _ _ _ E5) as [PC BC].
+    fold lo hi in PC. rewrite QI in PC.
+    assert (SH20 : ar_shares r2 = 0) by (rewrite SH2, SH; lia).
+    assert (ZSH : zsum (shares_of w3) O = zsum ps_liq O) by (apply zsum_ext; exact SHO3).
+    assert (NNO : 0 <= zsum ps_liq O) by (apply zsum_nonneg; intros p Hp; pose proof (LP p (proj1 (OIn p Hp))); lia).
+    destruct (stage_claim _ _ cur _ _ _ _ _ _ O PC R3 ltac:(lia) Hlu TKC (fun p Hp => proj2 (OIn p Hp)) PTC
+               ltac:(intros p Hp; rewrite (SHO3 p Hp); pose proof (LP p (proj1 (OIn p Hp))); lia)
+               ltac:(rewrite ZSH, TOT3, SH20; lia) HSC) as [CL [PTD [TKD [SHD [TOTD [_ SOD]]]]]].
+    assert (SPS : s_pos s = O) by exact SP.
+    destruct (stage_neutral cur _ w4 w5 O SE5 SP5 PTD ltac:(intros p Hp; apply KEEP; rewrite SPS; exact Hp)) as [ZE [PTE SHE]].
+    split; [|split].
+    + split; [exact RI'|]. split; [|split; [|exact FR']].
+      * intros p Hp. simpl in Hp. rewrite SPS in Hp. destruct (OIn p Hp) as [HpP Hne]. destruct (RM p HpP) as [rp [Rp Sp]].
+        exists rp. split; [|exact Sp]. simpl. rewrite (SOW _ Hne). exact Rp.
+      * simpl. change (rw_spread w5) with (rw_spread w4). rewrite TOTD, TOT3, SH20, SPS. lia.
+    + unfold sc_of. simpl. exact SCL.
+    + intro d. destruct (CL d) as [oq [_ [OQ0 [INEQ C0]]]].
+      assert (ON : Owed d (mkRS (set_bank s b3) w5) = zsum (owed d w4 cur) O).
+      { unfold Owed, cur_tick. simpl. rewrite SPS. destruct O as [|p0 O0] eqn:EO; [reflexivity|].
+        rewrite CT by (rewrite SPS; discriminate). apply ZE. }
+      unfold Phi. rewrite ON, (OLD d). unfold spread_bal, sc_of, set_bank. cbn [r_base r_rw s_bank s_pool]. rewrite SCL, BC, BS3, BS1.
+      destruct (ZU d) as [ZU1 [ZU2 _]]. rewrite (ZC d), ZU1, (ZB d), (ZA d) in INEQ.
+      rewrite (owedr_ins d w2 w3 cur lo hi r2 (IC d)) in INEQ. rewrite (OR d) in ZU2.
+      set (so := zsum (owed d (r_rw rs) cur) O) in *. set (o4 := zsum (owed d w4 cur) O) in *.
+      set (scv := p_scaling (s_pool (r_base rs))) in *. set (bal := b_spread (s_bank (r_base rs))) in *.
+      assert (BD : pr_sel d (fst bal - fst c, snd bal - snd c) = pr_sel d bal - pr_sel d c) by (destruct d; reflexivity).
+      rewrite BD. set (cd := pr_sel d c) in *. set (bd := pr_sel d bal) in *.
+      set (o2 := owedr d w2 cur lo hi r2) in *. set (o0 := owedr d (r_rw rs) cur lo hi r) in *.
+      clearbody so o4 o2 o0 cd bd scv. nia.
+  - (* partial withdrawal *)
+    apply Z.eqb_neq in EF. inversion E4; subst b3 w4. clear E4.
+    set (q2 := mkPos id owner lo hi (ps_liq q - liq) (ps_join q)) in *.
+    assert (SPS : s_pos s = pos_set P q2) by exact SP.
+    assert (Q2In : In q2 (s_pos s)) by (rewrite SPS; eapply pos_get_in; rewrite pos_get_set; simpl; rewrite Z.eqb_refl; reflexivity).
+    assert (OSub : forall p, In p O -> In p (s_pos s)).
+    { intros p Hp. destruct (OIn p Hp) as [A B0]. rewrite SPS. apply (pos_get_in _ (ps_id p)). rewrite pos_get_set. simpl.
+      apply Z.eqb_neq in B0. rewrite B0. apply in_pos_get; assumption. }
+    destruct (stage_neutral cur _ w3 w5 O SE5 SP5 PTC ltac:(intros p Hp; apply KEEP; apply OSub; exact Hp)) as [ZE [PTE SHE]].
+    destruct (KEEP q2 Q2In) as [K1 K2]. simpl in K1, K2.
+    destruct (ins_neutral cur _ w3 w5 lo hi SE5 SP5 Hlu TKC K1 K2) as [_ IE].
+    assert (NE : s_pos s <> []) by (intro X; rewrite X in Q2In; destruct Q2In).
+    split; [|split].
+    + split; [exact RI'|]. split; [|split; [|exact FR']].
+      * intros p Hp. simpl in Hp. pose proof (in_pos_get _ _ Ss Hp) as G. rewrite SPS, pos_get_set in G. simpl in G.
+        destruct (ps_id p =? id) eqn:EP.
+        -- inversion G; subst p. simpl. exists r2. split; [exact R3|]. rewrite SH2, SH. lia.
+        -- apply Z.eqb_neq in EP. pose proof (pos_get_in _ _ _ G) as HpP. destruct (RM p HpP) as [rp [Rp Sp]].
+           exists rp. split; [|exact Sp]. simpl. rewrite (SOW _ EP). exact Rp.
+      * simpl. change (rw_spread w5) with (rw_spread w3). rewrite TOT3, SPS, (zsum_set_upd _ P q2 q OS Q), SH2, SH.
+        unfold O. rewrite (zsum_liq_remove _ _ _ Q). simpl. lia.
+    + unfold sc_of. simpl. exact SCL.
+    + intro d.
+      assert (ON : Owed d (mkRS (set_bank s b2) w5) = zsum (owed d w3 cur) O + owedr d w3 cur lo hi r2).
+      { unfold Owed, cur_tick. simpl. rewrite (CT NE), SPS, (zsum_set_upd _ P q2 q OS Q).
+        assert (X : zsum (owed d w5 cur) P - owed d w5 cur q = zsum (owed d w5 cur) O) by (unfold O; rewrite (zsum_remove _ _ _ _ Q); lia).
+        rewrite X, (ZE d). f_equal. unfold owed. simpl. change (rw_spread w5) with (rw_spread w3). rewrite R3. apply owedr_ins. apply IE. }
+      unfold Phi. rewrite ON, (OLD d). unfold spread_bal, sc_of, set_bank. cbn [r_base r_rw s_bank s_pool]. rewrite SCL, BS3, BS1.
+      destruct (ZU d) as [ZU1 [ZU2 _]]. rewrite (ZC d), ZU1, (ZB d), (ZA d).
+      rewrite (owedr_ins d w2 w3 cur lo hi r2 (IC d)). rewrite (OR d) in ZU2. pose proof P18_pos. lia.
+Qed.
